@@ -102,9 +102,10 @@ fn get_node_cover_range_impl(
         // A nested markup cannot be formatted alone: the blanks at its edges and the
         // indentation of its list items depend on the enclosing node. Use that node instead.
         && (node.is::<Markup>() && node.parent().is_none()
-            // Whitespace carries the indentation of the next line. It cannot be formatted alone.
-            || node.is::<Expr>() && !matches!(node.kind(), SyntaxKind::Space | SyntaxKind::Parbreak)
-            || node.is::<Pattern>()))
+            || node.is::<Expr>()
+            || node.is::<Pattern>())
+        // Whitespace carries the indentation of the next line. It cannot be formatted alone.
+        && !matches!(node.kind(), SyntaxKind::Space | SyntaxKind::Parbreak))
     .then(|| (node.span(), mode))
     // It returns span to avoid problems with borrowing.
 }
